@@ -877,9 +877,13 @@ func optSets(tier string, which string) []optSet {
 func driverLine(tree *e2e.Tree, raw []*e2e.Fetch, opt optSet, subIdx map[string]int) string {
 	alive := map[int]bool{}
 	leafByID := map[int]*e2e.Fetch{}
+	mergedInto := map[int]int{}
 	for _, f := range tree.Fetches() {
 		alive[f.ID] = true
 		leafByID[f.ID] = f
+		for _, m := range f.Merged {
+			mergedInto[m] = f.ID
+		}
 		for _, m := range f.Merged {
 			alive[m] = true
 		}
@@ -913,8 +917,24 @@ func driverLine(tree *e2e.Tree, raw []*e2e.Fetch, opt optSet, subIdx map[string]
 		deps := f.Deps
 		if lf := leafByID[f.ID]; lf != nil && len(lf.Merged) == 0 {
 			// the post-processed record of an unmerged fetch carries the dependencies that
-			// addMissingNestedDependencies added (the sort key of orderSequenceByDependencies)
-			deps = append(append([]int(nil), f.Deps...), lf.Deps...)
+			// addMissingNestedDependencies added (the sort key of orderSequenceByDependencies);
+			// a leaf dependency that is just the merged carrier of a raw one is not added again
+			deps = append([]int(nil), f.Deps...)
+			carried := map[int]bool{}
+			for _, d := range f.Deps {
+				carried[d] = true
+				if r, ok := rep[d]; ok {
+					carried[r] = true
+				}
+				if m, ok := mergedInto[d]; ok {
+					carried[m] = true
+				}
+			}
+			for _, d := range lf.Deps {
+				if !carried[d] {
+					deps = append(deps, d)
+				}
+			}
 		}
 		for _, d := range deps {
 			if r, ok := rep[d]; ok {
